@@ -14,12 +14,20 @@ EcD == [F |-> 124, C |-> 94, S |-> 38, R |-> 126, E |-> 92, T |-> 0]
 SegLeaves(t) == LET sg == ParseSeg(t, EcD) IN
   UNION {{[i |-> i, r |-> x.r, c |-> x.c, s |-> x.s, t |-> x.t] : x \in NonEmptyLeaves(sg.fields[i])} : i \in 1..Len(sg.fields)}
 
+(* e.op = "Same": one write (text with the delimiters of the message) made through a chain that did not exist yet   *)
+(* (a) and through the same chain after its elements had been created with the add_* helpers (b): whether the chain  *)
+(* existed must not matter - the elements created below it and the encoding are the same                               *)
 Verdict(e) ==
+  IF e.op = "Same"
+  THEN IF e.outcome # "ok" THEN "write_raised"
+       ELSE IF e.a # e.b \/ e.enca # e.encb THEN "write_through_pending_chain_differs_from_write_through_existing_chain"
+       ELSE "ok"
+  ELSE
   LET pre == Rows(e.pre) post == Rows(e.post) IN
   IF e.op = "Read"
   THEN IF e.outcome # "ok" THEN "read_raised"
        ELSE IF Len(e.post) # Len(e.pre) \/ ~ReadAllowed(pre, post) THEN "read_changed_children"
-       ELSE IF e.encpost # e.encpre THEN "read_changed_encoding"
+       ELSE IF e.encpost # e.encpre \/ e.trailpost # e.trailpre THEN "read_changed_encoding"
        ELSE IF e.validpost # e.validpre THEN "read_changed_validation"
        ELSE "ok"
   ELSE IF e.op = "Assign"
